@@ -397,8 +397,12 @@ def wl_histories(ctx, rng, case_no):
             ctx.count("mon.clear_semantics")
             again = main.export_text(clear=False)
             if clear:
-                if again != "":
-                    ctx.violation("export-with-clear-left-record-non-empty", dict(wit, again=again))
+                # (the plain export leaves control codes out, so a record that still holds a bell or a cursor code
+                # looks empty through it: the styled export, which writes everything, has to be empty as well)
+                again_styled = main.export_text(clear=False, styles=True)
+                if again != "" or again_styled != "":
+                    ctx.violation("export-with-clear-left-record-non-empty" + (":control-codes-only" if again == "" else ""),
+                                  dict(wit, again=again, again_styled=again_styled))
                     return
                 mark["main"] = len(main.file.getvalue())
                 mark["ref"] = len(ref.file.getvalue())
